@@ -1059,6 +1059,12 @@ def replay(rec):
         e = max(e, s + 2)
         L = min(max(mint(m, "series_length", mint(m, "m", e + 2)), e), 40)
         if L - s >= 2 and e <= L:
+            mx = m.get("X")
+            while isinstance(mx, list) and mx and isinstance(mx[0], list):
+                mx = mx[0]
+            if isinstance(mx, list):
+                mx = [str(int(float(x))) if str(x).replace(".", "", 1).replace("-", "", 1).isdigit() else "0" for x in mx]
+                m = dict(m, X=mx)
             row = ints_from_model(m, "X", L) if isinstance(m.get("X"), list) else None
             transform_direct(R, [L], seed, intervals=[(s, e), (0, e), (s, L), (0, L)], rows=row)
             used.update(start=s, end=e, series_length=L)
